@@ -216,6 +216,9 @@ pub struct Pipe {
     /// how `DefaultBindGroup = d` is written (letters after the kind): `f` as the first property of the block,
     /// `x` as `d + 0`, `h` in hexadecimal, `k` through a named constant `static const uint K_<name> = d;`
     pub dspell: String,
+    /// kind `m`: a mesh shader + pixel shader pipeline (`graphics` is set as well; the uses are split between the two
+    /// stages as for `g`)
+    pub mesh: bool,
 }
 
 #[derive(Clone, Debug, PartialEq)]
@@ -478,7 +481,7 @@ fn show_pipe(p: &Pipe) -> String {
         "{}:{}:{}{}{}:{}",
         p.name,
         p.dflt.map(|d| d.to_string()).unwrap_or_else(|| "-".into()),
-        if p.graphics { "g" } else { "c" },
+        if p.mesh { "m" } else if p.graphics { "g" } else { "c" },
         p.dspell,
         p.share.map(|k| format!("={}", k)).unwrap_or_default(),
         uses.join(".")
@@ -500,7 +503,8 @@ fn parse_pipe(s: &str) -> Option<Pipe> {
     Some(Pipe {
         name: f[0].to_string(),
         dflt: if f[1] == "-" { None } else { Some(f[1].parse().ok()?) },
-        graphics: match kind.chars().next() { Some('c') => false, Some('g') => true, _ => return None },
+        graphics: match kind.chars().next() { Some('c') => false, Some('g') | Some('m') => true, _ => return None },
+        mesh: kind.starts_with('m'),
         dspell: kind[1..].to_string(),
         share,
         uses: f[3].split('.').filter(|u| !u.is_empty()).map(|u| u.parse().ok()).collect::<Option<Vec<usize>>>()?,
@@ -699,6 +703,9 @@ fn init_declarator(r: &Res) -> String {
 
 pub fn source(p: &Prog) -> String {
     let mut s = String::from("struct CbS { float4 v; };\n");
+    if p.pipes.iter().any(|x| x.mesh) {
+        s.push_str("struct MeshV { float4 position : SV_Position; };\n");
+    }
     let (mut late1, mut late2) = (String::new(), String::new());
     let mut i = 0;
     while i < p.res.len() {
@@ -809,7 +816,7 @@ pub fn source(p: &Prog) -> String {
     // a pipeline shares the entry points of an earlier pipeline of the same kind that has its own
     let owner = |k: usize| -> usize {
         match p.pipes[k].share {
-            Some(j) if j < k && p.pipes[j].share.is_none() && p.pipes[j].graphics == p.pipes[k].graphics => j,
+            Some(j) if j < k && p.pipes[j].share.is_none() && p.pipes[j].graphics == p.pipes[k].graphics && p.pipes[j].mesh == p.pipes[k].mesh => j,
             _ => k,
         }
     };
@@ -817,7 +824,18 @@ pub fn source(p: &Prog) -> String {
         if owner(k) != k {
             continue;
         }
-        if pipe.graphics {
+        if pipe.graphics && pipe.mesh {
+            let ms: String = pipe.uses.iter().step_by(2).map(|u| use_stmt(*u)).collect();
+            let ps: String = pipe.uses.iter().skip(1).step_by(2).map(|u| use_stmt(*u)).collect();
+            s.push_str(&format!(
+                "[numthreads(4, 1, 1)]\n[outputtopology(\"triangle\")]\nvoid ms{}(uint3 dtid : SV_DispatchThreadID, out vertices MeshV o_v[4], out indices uint3 o_t[4]) {{\n{}    SetMeshOutputCounts(4, 4);\n    MeshV v;\n    v.position = float4(0, 0, 0, 1);\n    o_v[dtid.x] = v;\n    o_t[dtid.x] = uint3(0, 1, 2);\n}}\n",
+                k, ms
+            ));
+            s.push_str(&format!(
+                "float4 ps{}(float4 i_pos : SV_Position) : SV_Target0 {{\n{}    return float4(0, 0, 0, 0);\n}}\n",
+                k, ps
+            ));
+        } else if pipe.graphics {
             let vs: String = pipe.uses.iter().step_by(2).map(|u| use_stmt(*u)).collect();
             let ps: String = pipe.uses.iter().skip(1).step_by(2).map(|u| use_stmt(*u)).collect();
             s.push_str(&format!(
@@ -857,7 +875,9 @@ pub fn source(p: &Prog) -> String {
             s.push_str(&dflt_line);
         }
         let k = owner(k);
-        if pipe.graphics {
+        if pipe.graphics && pipe.mesh {
+            s.push_str(&format!("    MeshShader = ms{};\n    PixelShader = ps{};\n", k, k));
+        } else if pipe.graphics {
             s.push_str(&format!("    VertexShader = vs{};\n    PixelShader = ps{};\n", k, k));
         } else {
             s.push_str(&format!("    ComputeShader = cs{};\n", k));
@@ -1608,13 +1628,15 @@ fn gen_pipes(rng: &mut Rng, nres: usize, min_pipes: usize) -> Vec<Pipe> {
                 dspell.push(c);
             }
         }
-        let mut pipe = Pipe { name, dflt, graphics: rng.chance(1, 3), uses, share: None, dspell };
+        let graphics = rng.chance(1, 3);
+        let mut pipe = Pipe { name, dflt, graphics, uses, share: None, dspell, mesh: graphics && rng.chance(1, 3) };
         // now and then the same entry points as an earlier pipeline (with, mostly, another default group)
         if k > 0 && rng.chance(1, 4) {
             let j = rng.below(k as u64) as usize;
             let earlier: &Pipe = &pipes[j];
             if earlier.share.is_none() {
                 pipe.graphics = earlier.graphics;
+                pipe.mesh = earlier.mesh;
                 pipe.uses = Vec::new();
                 pipe.share = Some(j);
             }
@@ -1712,8 +1734,8 @@ pub fn matrix_progs(rng: &mut Rng) -> Vec<Prog> {
             normalise(&mut res);
             let n = res.len();
             let pipes = vec![
-                Pipe { name: "P0".into(), dflt: Some(d0), graphics: false, uses: (0..n).collect(), share: None, dspell: String::new() },
-                Pipe { name: "P1".into(), dflt: if d1 == 0 && rng.chance(1, 2) { None } else { Some(d1) }, graphics: rng.chance(1, 3), uses: (0..n).filter(|_| rng.chance(1, 2)).collect(), share: None, dspell: String::new() },
+                Pipe { name: "P0".into(), dflt: Some(d0), graphics: false, uses: (0..n).collect(), share: None, dspell: String::new(), mesh: false },
+                Pipe { name: "P1".into(), dflt: if d1 == 0 && rng.chance(1, 2) { None } else { Some(d1) }, graphics: rng.chance(1, 3), uses: (0..n).filter(|_| rng.chance(1, 2)).collect(), share: None, dspell: String::new(), mesh: false },
             ];
             v.push(Prog { res, pipes });
         }
@@ -1807,8 +1829,8 @@ pub fn spelling_progs(rng: &mut Rng, all_kinds: bool) -> Vec<Prog> {
             let n = res.len();
             let d0 = rng.below(3) as u32;
             let pipes = vec![
-                Pipe { name: "P0".into(), dflt: Some(d0), graphics: false, uses: (0..n).collect(), share: None, dspell: String::new() },
-                Pipe { name: "P1".into(), dflt: Some((d0 + 1) % 3), graphics: rng.chance(1, 3), uses: (0..n).filter(|_| rng.chance(1, 2)).collect(), share: None, dspell: String::new() },
+                Pipe { name: "P0".into(), dflt: Some(d0), graphics: false, uses: (0..n).collect(), share: None, dspell: String::new(), mesh: false },
+                Pipe { name: "P1".into(), dflt: Some((d0 + 1) % 3), graphics: rng.chance(1, 3), uses: (0..n).filter(|_| rng.chance(1, 2)).collect(), share: None, dspell: String::new(), mesh: false },
             ];
             v.push(Prog { res, pipes });
         }
@@ -1821,6 +1843,15 @@ pub fn run_prog(p: &Prog, rng: &mut Rng, out: &mut Out, hist: &mut Hist) {
     hist.add(&format!("e2e:pipes={}", p.pipes.len()));
     if p.pipes.iter().any(|x| x.share.is_some()) {
         hist.add("e2e:shared-entry-points");
+    }
+    for x in &p.pipes {
+        hist.add(if x.mesh { "e2e:pipe:mesh+pixel" } else if x.graphics { "e2e:pipe:vertex+pixel" } else { "e2e:pipe:compute" });
+        if !x.dspell.is_empty() && x.dflt.is_some() {
+            hist.add("e2e:pipe:default-group-spelled-otherwise");
+        }
+        if x.name != format!("P{}", p.pipes.iter().position(|y| y.name == x.name).unwrap_or(0)) {
+            hist.add("e2e:pipe:unusual-name");
+        }
     }
     let distinct: std::collections::BTreeSet<u32> = p.pipes.iter().map(|x| x.dflt.unwrap_or(0)).collect();
     hist.add(&format!("e2e:distinct-default-groups={}", distinct.len()));
